@@ -33,12 +33,11 @@ func (lr *LoopRun) inductive(name string, inv func(pre map[string]interface{}) *
 func (lr *LoopRun) c01Viol(sv *StepVars) *smt.Term {
 	ps := lr.PS
 	return smt.Or(
-		sv.RawWrite,
+		smt.And(sv.RawWrite, smt.Not(smt.And(kindIs(sv.Kind, 1), sv.RawIsText))),
 		smt.And(sv.Space, smt.Not(ps.AddSpaces)),
 		smt.And(sv.Written, isTag(sv.Kind), smt.Not(ps.Allowed(sv.Data))),
 		smt.And(sv.Written, kindIs(sv.Kind, 5), smt.Not(ps.AllowComments)),
 		smt.And(sv.Written, smt.Or(kindIs(sv.Kind, 6), kindIs(sv.Kind, 0))),
-		smt.Lt(smt.IntC(1), sv.NWrites),
 	)
 }
 
